@@ -146,7 +146,7 @@ class C17(Check):
             'streaming buffer x read schedules x If-Modified-Since before/equal/after mtime (three HTTP date formats, own zone '
             'offsets, junk) x modification times in winter / summer / the hours of the 2020 DST switches x the process '
             'running under TZ = UTC, Europe/Berlin, a POSIX rule string, America/New_York, Australia/Sydney, Asia/Kolkata, '
-            'Europe/Dublin x GET/HEAD on real temporary files; HEAD against GET header for header; non-trivial = header contains "bytes=" (reaches the range arithmetic)')
+            'Europe/Dublin x GET/HEAD on real temporary files; HEAD against GET header for header; the same requests through app(environ, start_response) of an application whose handler returns static_file(...) (status, header list, body); non-trivial = header contains "bytes=" (reaches the range arithmetic)')
     assumptions = ['email.utils.parsedate_tz and os.stat are taken as given: the parsed fields are shipped to the model, which '
                    'converts them like calendar.timegm (minus the date\'s zone offset); years outside 1..9999 are outside the model',
                    'the file does not change between stat and read',
@@ -209,6 +209,124 @@ class C17(Check):
             return r, chunks
         finally:
             ss._file_iter_range.__defaults__ = old
+
+    # ------------------------------------------------------------------
+    # the same responses THROUGH the WSGI application: a handler that returns static_file(...)
+    def _app(self):
+        from ombott.ombott import Globals
+        app = Globals.app                       # static_file reads Globals.request, i.e. this application's request
+        if not getattr(app, 'verif_c17', False):
+            def handler():
+                chk = app.verif_c17_holder[0]           # the check object currently driving the application
+                return chk.ss.static_file(chk._wsgi_name, chk.tmp)
+            app.route('/verif_c17_static', method=['GET', 'HEAD'], callback=handler)
+            app.verif_c17 = True
+            app.verif_c17_holder = [self]
+        app.verif_c17_holder[0] = self
+        return app
+
+    def _wsgi(self, n, method, rng_hdr, ims_hdr, maxread, mtime=None, tz=None):
+        """GET/HEAD of the file through app(environ, start_response); -> (status code, header list, body chunks)"""
+        import io
+        app = self._app()
+        p = self._file(n, mtime)
+        self._wsgi_name = os.path.basename(p)
+        env = {'REQUEST_METHOD': method, 'PATH_INFO': '/verif_c17_static', 'SCRIPT_NAME': '', 'QUERY_STRING': '',
+               'SERVER_NAME': 'verif', 'SERVER_PORT': '80', 'SERVER_PROTOCOL': 'HTTP/1.1', 'wsgi.input': io.BytesIO(b''),
+               'wsgi.errors': io.StringIO(), 'wsgi.url_scheme': 'http', 'wsgi.version': (1, 0),
+               'wsgi.multithread': False, 'wsgi.multiprocess': False, 'wsgi.run_once': False}
+        if rng_hdr is not None:
+            env['HTTP_RANGE'] = rng_hdr
+        if ims_hdr is not None:
+            env['HTTP_IF_MODIFIED_SINCE'] = ims_hdr
+        started = []
+        ss = self.ss
+        old = ss._file_iter_range.__defaults__
+        ss._file_iter_range.__defaults__ = (maxread,)
+        try:
+            with Zone(tz):
+                out = app(env, lambda status, headers, exc_info=None: started.append((status, list(headers))))
+                chunks = [c for c in out]
+                close = getattr(out, 'close', None)
+                if close:
+                    close()
+        finally:
+            ss._file_iter_range.__defaults__ = old
+        status, headers = started[0]
+        return int(status.split()[0]), headers, chunks
+
+    @staticmethod
+    def _hget(headers, name):
+        vals = [v for k, v in headers if k.lower() == name.lower()]
+        return vals[0] if len(vals) == 1 else (None if not vals else vals)
+
+    def _wsgi_answer(self, method, sc, headers, chunks):
+        """the WSGI observation in the answer format of the `range static` line"""
+        if sc in (304, 416):
+            return str(sc)
+        if sc == 206:
+            return (f'206 cr={hs(str(self._hget(headers, "Content-Range")))} '
+                    f'cl={hs(str(self._hget(headers, "Content-Length")))} body={hbl(chunks)}')
+        body = '~' if method == 'HEAD' and not chunks else hb(b''.join(chunks))
+        return f'{sc} cl={self._hget(headers, "Content-Length")} body={body}'
+
+    HDRS = ['Content-Length', 'Content-Range', 'Accept-Ranges', 'Last-Modified', 'Content-Type', 'Content-Encoding']
+
+    def _oracle_wsgi(self, L, h, ims, mr, mtime=None, tz=None):
+        """GET and HEAD through the application: status and entity headers of HEAD equal GET's, header for header;
+        Content-Length is the length of the file / the slice; the body is the slice (GET) or empty (HEAD, 304)"""
+        import re
+        mtime = self.mtime if mtime is None else mtime
+        data = open(self._file(L, mtime), 'rb').read()
+        gs, gh, gc = self._wsgi(L, 'GET', h, ims, mr, mtime, tz)
+        hs_, hh, hc = self._wsgi(L, 'HEAD', h, ims, mr, mtime, tz)
+        gv = [gs] + [self._hget(gh, k) for k in self.HDRS]
+        hv = [hs_] + [self._hget(hh, k) for k in self.HDRS]
+        what = f'through the application, Range {h!r}, If-Modified-Since {ims!r}, {L} bytes'
+        if b''.join(hc):
+            return 'wsgi-head-body', f'{what}: HEAD delivered a body'
+        if gv != hv:
+            return 'wsgi-head-differs-from-get', f'{what}: GET {gv} but HEAD {hv}'
+        body = b''.join(gc)
+        exp_t = self._expected_instant(ims)
+        if exp_t is not None and exp_t >= mtime:
+            if gs != 304:
+                return 'wsgi-ims-not-304' + self._zone_class(tz), f'{what} (TZ={tz}): answered {gs}'
+            if body:
+                return 'wsgi-304-body', f'{what}: 304 with a body'
+            return None
+        if gs == 304:
+            return ('wsgi-ims-304-older', f'{what}: 304') if exp_t is not None else None
+        cl = self._hget(gh, 'Content-Length')
+        if not h:
+            if gs != 200:
+                return 'wsgi-norange-status', f'{what}: answered {gs}'
+            if str(cl) != str(L):
+                return 'wsgi-content-length', f'{what}: Content-Length {cl!r}, the file has {L} bytes'
+            if body != data:
+                return 'wsgi-body', f'{what}: the body is not the file'
+            return None
+        exp = rfc_first_range(h, L)
+        if gs == 206:
+            cr = self._hget(gh, 'Content-Range')
+            m = re.fullmatch(r'bytes (\d+)-(\d+)/(\d+)', str(cr))
+            if not m:
+                return 'wsgi-content-range', f'{what}: Content-Range {cr!r}'
+            s, e, tot = int(m.group(1)), int(m.group(2)) + 1, int(m.group(3))
+            if tot != L or not (0 <= s < e <= L) or str(cl) != str(e - s):
+                return 'wsgi-content-length', f'{what}: Content-Range {cr!r}, Content-Length {cl!r}'
+            if body != data[s:e]:
+                return 'wsgi-body', f'{what}: the body is not file[{s}:{e}]'
+            if any(len(c) > mr for c in gc):
+                return 'wsgi-chunk-too-large', f'{what}: a chunk exceeds the streaming buffer'
+            if exp != 'skip' and exp != (s, e):
+                return 'wsgi-rfc-clipping', f'{what}: gave {s}-{e}, RFC 7233 says {exp}'
+        elif gs == 416:
+            if exp != 'skip' and exp is not None:
+                return 'wsgi-rfc-416', f'{what}: satisfiable ({exp}) but 416'
+        else:
+            return 'wsgi-range-status', f'{what}: answered {gs}'
+        return None
 
     def corr(self, rng, n):
         self._setup()
@@ -274,6 +392,13 @@ class C17(Check):
                 out.append((f'range static {hb(data)} - {1 if method == "HEAD" else 0} {opt(h, hs)} '
                             f'{fields} {mtime} {mr}', ans,
                             dict(kind='static', len=L, method=method, range=h, ims=ims, maxread=mr, mtime=mtime, tz=tz)))
+                if rng.random() < .5:       # the same request through app(environ, start_response)
+                    wsc, wh, wc = self._wsgi(L, method, h, ims, mr, mtime, tz)
+                    st['via_wsgi'] = st.get('via_wsgi', 0) + 1
+                    out.append((f'range static {hb(data)} - {1 if method == "HEAD" else 0} {opt(h, hs)} '
+                                f'{fields} {mtime} {mr}', self._wsgi_answer(method, wsc, wh, wc),
+                                dict(kind='static', via='wsgi', len=L, method=method, range=h, ims=ims, maxread=mr,
+                                     mtime=mtime, tz=tz)))
             # the date arithmetic by itself against calendar.timegm
             for _ in range(n // 3):
                 f = (rng.randint(1, 9999), rng.randint(1, 12), rng.randint(-3, 40), rng.randint(-2, 30), rng.randint(-5, 70),
@@ -436,6 +561,30 @@ class C17(Check):
                 if bad:
                     findings.append(Finding(f'C17:{bad[0]}', bad[1],
                                             dict(len=c[0], method=c[1], range=c[2], ims=c[3], maxread=c[4], mtime=c[5], tz=c[6])))
+            # through the WSGI application: GET/HEAD x no Range / 206 / 416 / 304
+            wcases = [(L, h, None, 3, None, None) for L in (0, 1, 5, 8)
+                      for h in (None, '', 'bytes=0-', 'bytes=0-0', 'bytes=1-3', 'bytes=-2', 'bytes=3-', 'bytes=9-', 'bytes=5-2',
+                                'bytes=5', 'bytes=', 'bytes=0-1,3-4', 'junk')]
+            wcases += [(5, h, http_date(self.mtime + d), 4, None, tz) for h in (None, 'bytes=0-1') for d in (-1, 0, 3600)
+                       for tz in (None, 'Europe/Berlin', 'Europe/Dublin')]
+            for s in seeds:
+                if s.get('kind') == 'static':
+                    wcases.append((s['len'], s['range'], s.get('ims'), s['maxread'], s.get('mtime'), s.get('tz')))
+            for _ in range(n // 6):
+                mtime = rng.choice(MTIMES)
+                d = rng.choice([None, None, None] + IMS_DELTAS)
+                wcases.append((rng.choice([0, 1, 2, 7, 16, 33]), rng.choice([None, gen_header(rng), gen_header(rng)]),
+                               None if d is None else http_date(mtime + d), rng.choice([1, 4, 16, 1 << 20]), mtime,
+                               rng.choice([None] + TZS)))
+            for c in wcases:
+                evals += 1
+                try:
+                    bad = self._oracle_wsgi(*c)
+                except Exception as e:
+                    bad = ('wsgi-exception', f'{type(e).__name__}: {e}')
+                if bad:
+                    findings.append(Finding(f'C17:{bad[0]}', bad[1],
+                                            dict(wsgi=True, len=c[0], range=c[1], ims=c[2], maxread=c[3], mtime=c[4], tz=c[5])))
             # HEAD against GET, header for header
             pairs = [(L, f'bytes={a}-{b}', 3) for L in (0, 1, 5, 8) for a in ('', '0', '3', '9') for b in ('', '0', '4', '99')]
             pairs += [(L, h, 3) for L in (0, 5) for h in (None, '', 'bytes=5', 'bytes=', 'bytes=1-2,4-5', 'junk')]
@@ -462,7 +611,12 @@ class C17(Check):
             out.update(line=data['line'], recorded_impl=data.get('observed_impl'), recorded_model=data.get('observed_model'))
         self._setup()
         try:
-            if i.get('pair'):
+            if i.get('wsgi'):
+                out['oracle'] = self._oracle_wsgi(i['len'], i['range'], i.get('ims'), i['maxread'], i.get('mtime'), i.get('tz'))
+                for m in ('GET', 'HEAD'):
+                    sc, hd, ch = self._wsgi(i['len'], m, i['range'], i.get('ims'), i['maxread'], i.get('mtime'), i.get('tz'))
+                    out[m] = dict(status=sc, headers=hd, body=b''.join(ch)[:80].decode('latin1'))
+            elif i.get('pair'):
                 out['oracle'] = self._oracle_head_pair(i['len'], i['range'], i['maxread'])
             elif i.get('kind') == 'first':
                 out['get_first_range_now'] = repr(self.ss.get_first_range(i['header'], i['maxlen']))
